@@ -201,6 +201,14 @@ def apply_variant(spec, var):
     if name == "reorder_tables":
         tabs.reverse()
         return s
+    if name == "swap_tables_reorder":
+        # the frames change names AND the map is built in the other insertion order: a key that pairs names and
+        # frames by position instead of by name cannot tell the two maps apart
+        i, j = var[1] % nt, var[2] % nt
+        j = (i + 1) % nt if i == j else j
+        tabs[i][1], tabs[j][1] = tabs[j][1], tabs[i][1]
+        tabs.reverse()
+        return s
     fs = tab(var[1])
     cols = fs["cols"]
     nc, nr = len(cols), _nrows(fs)
@@ -666,6 +674,8 @@ _variant = st.one_of(
     st.tuples(st.just("rotate_rows"), _I, _I),
     st.tuples(st.just("rename_table"), _I, _I),
     st.tuples(st.just("swap_tables"), _I, _I),
+    st.tuples(st.just("swap_tables_reorder"), _I, _I),
+    st.tuples(st.just("swap_tables_reorder"), _I, _I),
     st.tuples(st.just("add_table"), _I),
     st.tuples(st.just("del_table"), _I),
     st.tuples(st.just("reorder_tables")),
